@@ -9,6 +9,8 @@ pub enum FieldTy {
     U8,
     I32,
     U64,
+    /// usize: usable as a `name$` / `1$` width argument of another placeholder
+    Usize,
     Bool,
     Char,
     Str,
@@ -50,6 +52,7 @@ impl FieldTy {
             FieldTy::U8 => "u8",
             FieldTy::I32 => "i32",
             FieldTy::U64 => "u64",
+            FieldTy::Usize => "usize",
             FieldTy::Bool => "bool",
             FieldTy::Char => "char",
             FieldTy::Str => "String",
@@ -76,7 +79,7 @@ impl FieldTy {
     /// `vrt::R::r` rendering of `Default::default()` for this type.
     pub fn default_render(self) -> &'static str {
         match self {
-            FieldTy::U8 | FieldTy::I32 | FieldTy::U64 | FieldTy::Gen2 => "0",
+            FieldTy::U8 | FieldTy::I32 | FieldTy::U64 | FieldTy::Usize | FieldTy::Gen2 => "0",
             FieldTy::Bool => "false",
             FieldTy::Char => "'\\0'",
             FieldTy::Str | FieldTy::RefStr | FieldTy::BoxStr | FieldTy::StaticStr => "s:",
@@ -101,6 +104,7 @@ impl FieldTy {
             FieldTy::U8 => ("41u8", "41"),
             FieldTy::I32 => ("-17i32", "-17"),
             FieldTy::U64 => ("9_000_000_000u64", "9000000000"),
+            FieldTy::Usize => ("7usize", "7"),
             FieldTy::Bool => ("true", "true"),
             FieldTy::Char => ("'q'", "'q'"),
             FieldTy::Str => ("String::from(\"dw\")", "s:dw"),
